@@ -8,7 +8,7 @@ from typing import Any, Dict, List, Optional, Set, Tuple
 from .. import linexpr as lx
 from ..core import AnalysisError, Report
 from ..linexpr import Env, py_ir, to_lin
-from ..pyfacts import Repo, resolve_names, attribute_copies, cc, cn, element_rejections, inline_adjacent_temps, normalize_sorted_sweeps, eval_int_expr, membership_searches, normalize_indexed_loops, inline_module_constants, expand_private_calls, normalize_counting_whiles, inline_block, inline_predicates, canon_cond, push_not, calls, dotted, fold, norm, raise_guards, raised_class, walk_no_nested
+from ..pyfacts import Repo, clone, resolve_names, attribute_copies, cc, cn, element_rejections, inline_adjacent_temps, normalize_sorted_sweeps, eval_int_expr, membership_searches, normalize_indexed_loops, inline_module_constants, expand_private_calls, normalize_counting_whiles, inline_block, inline_predicates, canon_cond, push_not, calls, dotted, fold, norm, raise_guards, raised_class, walk_no_nested
 
 W = 'flipjump/fjm/fjm_writer.py'
 R = 'flipjump/fjm/fjm_reader.py'
@@ -216,6 +216,50 @@ def rule_reljump(rep: Report, repo: Repo) -> None:
              '(odd k below the even data length), same offset (segment_start + k) * w with opposite signs, same mask', 5)
     wf = normalize_counting_whiles(repo.func(W, reljump_writer(repo)))
     loop = [n for n in ast.walk(wf) if isinstance(n, ast.For)][0]
+    # a second spelling of the same walk: `for t, x in enumerate(pool[B + 1 : B + N : 2])` with the pool index written as B + 2t + 1 -
+    # rewritten here, syntactically, into the indexed form the clauses below read (k = 2t + 1 is odd and runs over range(1, N, 2))
+    it0 = loop.iter
+    if isinstance(it0, ast.Call) and dotted(it0.func) == 'enumerate' and len(it0.args) == 1 and isinstance(loop.target, ast.Tuple) and len(loop.target.elts) == 2 \
+            and all(isinstance(e_, ast.Name) for e_ in loop.target.elts):
+        sl = resolve_names(wf, it0.args[0])
+        tname, xname = loop.target.elts[0].id, loop.target.elts[1].id          # type: ignore[attr-defined]
+        if isinstance(sl, ast.Subscript) and isinstance(sl.slice, ast.Slice) and sl.slice.lower is not None and sl.slice.upper is not None \
+                and isinstance(sl.slice.step, ast.Constant) and sl.slice.step.value == 2:
+            lo_l = to_lin(py_ir(sl.slice.lower), Env({}))
+            hi_l = to_lin(py_ir(sl.slice.upper), Env({}))
+            base_l = {k_: v_ for k_, v_ in lo_l.items() if k_ != '' and hi_l.get(k_) == v_}
+            lo_c = {k_: v_ for k_, v_ in lx.lin_add(lo_l, base_l, -1).items() if v_}
+            hi_rest = {k_: v_ for k_, v_ in lx.lin_add(hi_l, base_l, -1).items() if v_}
+            if lo_c == {'': 1} and len(base_l) == 1 and list(base_l.values()) == [1] and len(hi_rest) == 1 and list(hi_rest.values()) == [1] and '' not in hi_rest:
+                bname, nname = next(iter(base_l)), next(iter(hi_rest))
+
+                class _K(ast.NodeTransformer):          # t -> (i - 1) // 2 is avoided: 2*t + 1 (in any spelling that is linear) reads as i
+                    def visit_Name(self, node: ast.Name) -> ast.AST:
+                        if node.id == xname and isinstance(node.ctx, ast.Load):
+                            return ast.parse(f'{norm(sl.value)}[{bname} + i]', mode='eval').body
+                        return node
+                new_body = []
+                for st_ in inline_block(loop.body):
+                    st2 = _K().visit(clone(st_))
+                    # 2*t + 1 -> i wherever it appears as a linear form of t
+                    class _T(ast.NodeTransformer):
+                        def generic_visit(self, node: ast.AST) -> ast.AST:
+                            node = super().generic_visit(node)
+                            if isinstance(node, ast.BinOp):
+                                try:
+                                    lf = {k_: v_ for k_, v_ in to_lin(py_ir(node), Env({})).items() if v_}
+                                except Exception:          # noqa: BLE001
+                                    return node
+                                if lf.get(tname) == 2 and lf.get('', 0) % 2 == 1:
+                                    rest = dict(lf); rest.pop(tname); rest[''] = rest.get('', 0) - 1
+                                    rest = {k_: v_ for k_, v_ in rest.items() if v_}
+                                    txt = ' + '.join([f'{v_}*{k_}' if v_ != 1 else k_ for k_, v_ in rest.items() if k_ != ''] + ([str(rest[''])] if rest.get('') else []) + ['i'])
+                                    return ast.parse(txt, mode='eval').body
+                            return node
+                    new_body.append(ast.fix_missing_locations(_T().visit(st2)))
+                if not any(isinstance(x_, ast.Name) and x_.id == tname for b_ in new_body for x_ in ast.walk(b_)):
+                    loop = ast.For(target=ast.Name(id='i', ctx=ast.Store()), iter=ast.parse(f'range(1, {nname}, 2)', mode='eval').body, body=new_body, orelse=[])
+                    ast.fix_missing_locations(loop)
     wr = norm(loop.iter)
     wbody = inline_block(loop.body)              # named temporaries of the loop body are substituted
     st = wbody[0]
@@ -223,7 +267,7 @@ def rule_reljump(rep: Report, repo: Repo) -> None:
     if not (isinstance(st, ast.Assign) and isinstance(st.targets[0], ast.Subscript)):
         raise AnalysisError('_update_to_relative_jumps: unexpected loop body')
     w_idx = lx.lin_show(to_lin(py_ir(st.targets[0].slice), wenv))
-    w_val = py_ir(resolve_names(wf, st.value))
+    w_val = py_ir(resolve_names(wf, st.value, keep=('i',)))          # the loop index stays the loop index (also when the walk was rewritten above)
     im = _reader_init_memory(repo)
     rl = [n for n in ast.walk(im) if isinstance(n, ast.For) and norm(n.iter).startswith('range(0, data_length')]
     if not rl:
@@ -272,7 +316,8 @@ def rule_reljump(rep: Report, repo: Repo) -> None:
 def rule_zerofill(rep: Report, repo: Repo) -> None:
     rep.rule('C06.ZEROFILL', 'both zero-tail branches cover [data_length, segment_length) relative to segment_start; the lazy '
              'ranges are consulted by the word reader before garbage is declared; the plain copy covers [0, data_length)', 4)
-    im = _reader_init_memory(repo)
+    from ..pyfacts import spread_literal_sequences as _sls
+    im = _sls(_reader_init_memory(repo))          # `a, b = X, Y` reads as two assignments; named ends of the tail read through
     site = f'{R}:{im.lineno} Reader._init_memory'
     # all three facts are FOLDED on a grid of (segment_start, data_length, segment_length) after reading named sub-expressions
     # through (zeros_start / zeros_end / tail_length ...): what matters is which addresses are zeroed, not how they are spelled
@@ -301,6 +346,25 @@ def rule_zerofill(rep: Report, repo: Repo) -> None:
             addrs = [ev(n.body[0].targets[0].slice, {**env, n.target.id: k}) for k in range(*args)]      # type: ignore[arg-type]
             good = good and addrs == list(range(ss + dl, ss + sl))
         ok_dense = ok_dense or good
+    # the same fill as one bulk update: self.memory.update(dict.fromkeys(range(A, B), 0))  /  update({a: 0 for a in range(A, B)})
+    for c in calls(im):
+        if dotted(c.func) == 'self.memory.update' and len(c.args) == 1 and not ok_dense:
+            a0 = resolve_names(im, c.args[0], allow_calls=True)
+            rng = None
+            if isinstance(a0, ast.Call) and dotted(a0.func) == 'dict.fromkeys' and len(a0.args) == 2 and norm(a0.args[1]) == '0' and isinstance(a0.args[0], ast.Call) \
+                    and dotted(a0.args[0].func) == 'range':
+                rng = a0.args[0]
+            elif isinstance(a0, ast.DictComp) and len(a0.generators) == 1 and not a0.generators[0].ifs and norm(a0.value) == '0' \
+                    and norm(a0.key) == norm(a0.generators[0].target) and isinstance(a0.generators[0].iter, ast.Call) and dotted(a0.generators[0].iter.func) == 'range':
+                rng = a0.generators[0].iter
+            if rng is not None:
+                dense_txt = norm(c)[:100]
+                good = True
+                for ss, dl, sl in grid:
+                    env = {'segment_start': ss, 'data_length': dl, 'segment_length': sl}
+                    args = [ev(a, env) for a in rng.args]
+                    good = good and all(a is not None for a in args) and list(range(*args)) == list(range(ss + dl, ss + sl))     # type: ignore[arg-type]
+                ok_dense = ok_dense or good
     rep.check(ok_dense, 'C06.ZEROFILL', 'dense', dense_txt, site, expected='memory[a] = 0 for a in [segment_start + data_length, segment_start + segment_length)')
     lazy_calls = [c for c in calls(im) if dotted(c.func) == 'self.zeros_boundaries.append' and len(c.args) == 1]
     lazy = [norm(c.args[0]) for c in lazy_calls]
@@ -704,7 +768,8 @@ def rule_pool_owned(rep: Report, repo: Repo) -> None:
     for n in ast.walk(cls):
         if isinstance(n, (ast.Assign, ast.AnnAssign)) and n.value is not None:
             for t in (n.targets if isinstance(n, ast.Assign) else [n.target]):
-                if self_attr(t) in mutated and isinstance(n.value, (ast.List, ast.Dict, ast.Set, ast.ListComp, ast.DictComp, ast.SetComp)):
+                if self_attr(t) in mutated and (isinstance(n.value, (ast.List, ast.Dict, ast.Set, ast.ListComp, ast.DictComp, ast.SetComp)) or (
+                        isinstance(n.value, ast.Call) and dotted(n.value.func) in ('list', 'dict', 'set', 'collections.deque', 'deque') and not n.value.keywords)):
                     containers.add(self_attr(t))                    # type: ignore[arg-type]
     if not {'data', 'segments'} <= containers:
         raise AnalysisError(f'C06.POOL-OWNED: the data pool / segment table of the Writer were not recognised as its containers ({sorted(containers)})')
